@@ -130,6 +130,12 @@ static unsigned char channel_config_visualization_type[CHANNEL_MAX_COUNT] = {0};
 
 static devconn_params *devconn = NULL;
 
+// Set while a handler called from srpc_iterate() is running. A handler may stop
+// the connection (cfg mode, firmware update); the srpc instance must then
+// outlive the srpc_iterate() call that is still using it.
+static uint8 devconn_in_remote_call = 0;
+static ETSTimer devconn_srpc_free_timer;
+
 #ifndef SUPLA_SMOOTH_DISABLED
 #if defined(RGB_CONTROLLER_CHANNEL) \
     || defined(RGBW_CONTROLLER_CHANNEL) \
@@ -1390,6 +1396,7 @@ void DEVCONN_ICACHE_FLASH supla_esp_on_remote_call_received(
 
   // supla_log(LOG_DEBUG, "call_received");
 
+  devconn_in_remote_call = 1;
   if (SUPLA_RESULT_TRUE == (result = srpc_getdata(_srpc, &rd, 0))) {
     switch (rd.call_id) {
       case SUPLA_SDC_CALL_VERSIONERROR:
@@ -1515,6 +1522,7 @@ void DEVCONN_ICACHE_FLASH supla_esp_on_remote_call_received(
   } else if (result == SUPLA_RESULT_DATA_ERROR) {
     supla_log(LOG_DEBUG, "DATA ERROR!");
   }
+  devconn_in_remote_call = 0;
 }
 
 #if ESP8266_SUPLA_PROTO_VERSION >= 10
@@ -1645,9 +1653,21 @@ supla_esp_devconn_iterate(void *timer_arg) {
 }
 
 void DEVCONN_ICACHE_FLASH
+supla_esp_srpc_free_delayed_cb(void *srpc) {
+	srpc_free(srpc);
+}
+
+void DEVCONN_ICACHE_FLASH
 supla_esp_srpc_free(void) {
 	if ( devconn->srpc != NULL ) {
-		srpc_free(devconn->srpc);
+		if ( devconn_in_remote_call ) {
+			os_timer_disarm(&devconn_srpc_free_timer);
+			os_timer_setfn(&devconn_srpc_free_timer,
+					(os_timer_func_t *)supla_esp_srpc_free_delayed_cb, devconn->srpc);
+			os_timer_arm(&devconn_srpc_free_timer, 1, 0);
+		} else {
+			srpc_free(devconn->srpc);
+		}
 		devconn->srpc = NULL;
 	}
 }
